@@ -55,6 +55,7 @@ type CaseOpts struct {
 	Memoize      bool           `json:"memoize,omitempty"`
 	Debug        bool           `json:"debug,omitempty"`
 	Stats        bool           `json:"stats,omitempty"`
+	DupOpts      bool           `json:"dup_opts,omitempty"`   // every option value passed twice
 	Via          string         `json:"via,omitempty"`        // "" Parse, "reader" ParseReader, "file" ParseFile (Filename names the file)
 	WarmStats    bool           `json:"warm_stats,omitempty"` // the Stats value was used by an earlier parse
 	MaxExpr      uint64         `json:"maxexpr,omitempty"`
